@@ -263,6 +263,19 @@ StepLink(fl, m, run, e, cn, full, final) ==
   LET pr == Prepare(fl, ~fl["lnk"], run.fs, Front(full)) IN
   IF pr.res = "skip" THEN [run EXCEPT !.fs = pr.fs]
   ELSE IF pr.res = "fail" /\ m.ret THEN Abort(run, pr.fs)
+  ELSE IF e.t = "hard" THEN
+    \* a hard link (repaired code, b1e42768): the target is relative to the image root; it is tracked as required, must
+    \* lie inside the target directory, and is linked with os.Link (which does not follow a final symlink and fails on
+    \* a missing source or a directory); a failure matters in the final pass only
+    LET tclean == CleanAcc(TRUE, e.l.segs, 0, <<>>).segs
+        src == Base \o tclean
+        r1 == [run EXCEPT !.fs = pr.fs, !.req = @ \cup {[abs |-> TRUE, ups |-> 0, segs |-> tclean]}]
+    IN IF OutsideCheckEarly(fl, pr.fs, Front(src)) THEN r1
+       ELSE LET w == Walk(pr.fs, <<>>, src, Fuel, FALSE)
+                linkable == w.st = "ok" /\ pr.fs[w.p].k # "dir"
+                c == IF linkable THEN Create(pr.fs, full, pr.fs[w.p]) ELSE [ok |-> FALSE, fs |-> pr.fs]
+            IN IF c.ok THEN [r1 EXCEPT !.fs = c.fs]
+               ELSE IF final /\ m.ret THEN Abort(r1, pr.fs) ELSE r1
   ELSE IF TargetOutsideRoot(cn, e.l) THEN [run EXCEPT !.fs = pr.fs]         \* TargetOutsideRootCheck
   ELSE
     LET req2 == run.req \cup LinkKeys(cn, e.l)
